@@ -32,6 +32,9 @@ type Request struct {
 	OpName string
 	Vars   map[string]interface{}
 	Entry  int // 0 ResolveString, 1 ResolveBytes, 2 ResolveReader, 3 ParseExecutable+ResolveExecutable
+	// Exe, when set, is an executable parsed earlier (and possibly resolved before): the request is
+	// ResolveExecutable on it, whatever Entry says. Used for parse-once / resolve-many histories.
+	Exe *ggql.Executable
 }
 
 func copyVars(v map[string]interface{}) map[string]interface{} {
@@ -65,6 +68,17 @@ func Do(h *back.Harness, rq Request, plan model.FaultPlan) *Outcome {
 	out := &Outcome{}
 	vars := copyVars(rq.Vars)
 	out.Panic, out.Stack = run.Protect(func() {
+		if rq.Exe != nil {
+			res, err := h.Root.ResolveExecutable(rq.Exe, rq.OpName, vars)
+			if res == nil {
+				res = map[string]interface{}{"data": nil}
+			}
+			if err != nil {
+				res["errors"] = ggql.FormErrorsResult(err)
+			}
+			out.Resp = res
+			return
+		}
 		switch rq.Entry % 4 {
 		case 0:
 			out.Resp = h.Root.ResolveString(rq.Text, rq.OpName, vars)
